@@ -70,6 +70,11 @@ pub fn pool() -> Vec<(String, Ex, bool)> {
     v.push((bin(int(0), "-", Ex::Num(NumLit::Pow2(63))), true));
     v.push((Ex::Num(NumLit::Pow2(64)), true));
     v.push((Ex::Num(NumLit::Big("9223372036854775807".into())), true));
+    // the least 64-bit integer, reached by small-integer arithmetic
+    v.push((
+        bin(bin(int(0), "-", Ex::Num(NumLit::Big("9223372036854775807".into()))), "-", int(1)),
+        true,
+    ));
     v.push((Ex::Num(NumLit::Rat(1, 2)), false));
     v.push((Ex::Num(NumLit::Rat(-7, 3)), false));
     v.push((Ex::Num(NumLit::Rat(2, 2)), false));
@@ -112,6 +117,20 @@ pub fn pool() -> Vec<(String, Ex, bool)> {
     v.push((Ex::Lambda(vec![lv("x")], Box::new(bin(var("x"), ">", int(1)))), false));
     v.push((Ex::Lambda(vec![lv("x")], Box::new(int(0))), false));
     v.push((Ex::Lambda(vec![lv("x")], Box::new(Ex::Throw(Box::new(Ex::Str("cb".into()))))), false));
+    // takes any number of arguments, counts its calls in the implementation-only variable `cbn`, throws
+    v.push((
+        Ex::Lambda(
+            vec![Lv::Splat(Box::new(lv("xs")))],
+            Box::new(Ex::Seq(
+                vec![
+                    Ex::OpAssign(false, Box::new(lv("cbn")), "+".into(), Box::new(int(1))),
+                    Ex::Throw(Box::new(Ex::Str("cb".into()))),
+                ],
+                false,
+            )),
+        ),
+        false,
+    ));
     v.push((var("len"), false));
     v.push((var("+"), false));
     v.push((var("int"), false));
@@ -223,10 +242,16 @@ pub fn generate_mode(seed: u64, index: u64, exhaustive: bool, inf: InfMode) -> F
         Ex::StructDef("Pt".into(), vec![("px".into(), None), ("py".into(), Some(int(7)))]),
         vec![],
     );
+    g.push_outcome_only("declare-callback-counter", declare("cbn", int(0)), vec![], false);
+    let mut thrower: Option<String> = None;
     for (name, e, _) in pool.iter() {
         // lazy values whose callbacks print are kept out of the model: observing them would run
         // the callbacks
-        let effectful = crate::ir::render(e).contains("lazy_map (\\y -> (print");
+        let text = crate::ir::render(e);
+        if text.contains("cbn += 1") {
+            thrower = Some(name.clone());
+        }
+        let effectful = text.contains("lazy_map (\\y -> (print") || text.contains("cbn += 1");
         if effectful || g.push("declare-pool", declare(name, e.clone()), vec![]).is_err() {
             // the model cannot represent this pool value: declare it implementation-only
             g.push_outcome_only("declare-pool-unmodelled", declare(name, e.clone()), vec![], false);
@@ -264,6 +289,7 @@ pub fn generate_mode(seed: u64, index: u64, exhaustive: bool, inf: InfMode) -> F
                 matches!(
                     crate::ir::render(e).as_str(),
                     "null" | "0" | "1" | "(0-1)" | "2" | "7" | "(1/2)" | "0.5" | "\"\"" | "\"abc\"" | "\"12\"" | "[]"
+                        | "((0 - 9223372036854775807) - 1)" | "(2^63)"
                         | "[3, 1, 2]" | "[\"a\", \"b\"]" | "{1: 2, \"a\": null}" | "V(1, 2)" | "B(104, 105)"
                         | "(\\x -> x)" | "(\\x, y -> (x + y))" | "to(1, 3)"
                 )
@@ -273,6 +299,31 @@ pub fn generate_mode(seed: u64, index: u64, exhaustive: bool, inf: InfMode) -> F
         for a in core.iter() {
             for b in core.iter() {
                 tuples.push(vec![*a, *b]);
+            }
+        }
+    } else if part == 2 {
+        // (a, b, f): two data arguments from a mini-core (with infinite streams) and a callback
+        let pick = |texts: &[&str]| -> Vec<usize> {
+            pool.iter()
+                .enumerate()
+                .filter(|(_, (_, e, _))| texts.contains(&crate::ir::render(e).as_str()))
+                .map(|(i, _)| i)
+                .collect()
+        };
+        let data = pick(&["null", "2", "\"abc\"", "\"a\"", "[3, 1, 2]", "{1: 2, \"a\": null}", "to(1, 3)", "iota(0)", "repeat(1)"]);
+        let mut funcs = pick(&["+", "(\\x -> x)", "(\\x, y -> (x + y))"]);
+        if let Some(t) = &thrower {
+            funcs.extend(pool.iter().enumerate().filter(|(_, (n, _, _))| n == t).map(|(i, _)| i));
+        }
+        for a in data.iter() {
+            for b in data.iter() {
+                for f in funcs.iter() {
+                    tuples.push(vec![*a, *b, *f]);
+                }
+            }
+            for f in funcs.iter() {
+                tuples.push(vec![*a, *f]);
+                tuples.push(vec![*f, *a]);
             }
         }
     } else {
@@ -305,13 +356,23 @@ pub fn generate_mode(seed: u64, index: u64, exhaustive: bool, inf: InfMode) -> F
         }
         let args: Vec<Ex> = t.iter().map(|i| var(&pool[*i].0)).collect();
         let c = Ex::Call(Box::new(var(&fname)), args);
-        let wrapped = (n_calls % 2) == 1;
+        // (a call handed the counting thrower is never wrapped: whether its error comes out is
+        // what is observed)
+        let has_thrower = thrower.as_ref().map_or(false, |tn| t.iter().any(|i| &pool[*i].0 == tn));
+        let wrapped = (n_calls % 2) == 1 && !has_thrower;
         let must_terminate = !has_inf;
         if wrapped {
             let e = Ex::Try(Box::new(c), Box::new(lv("e")), Box::new(Ex::Str("caught".into())));
             g.push_outcome_only_t("call-in-try", e, vec![], true, must_terminate);
         } else {
             g.push_outcome_only_t("call", c, vec![], false, must_terminate);
+            if let Some(tn) = &thrower {
+                if t.iter().any(|i| &pool[*i].0 == tn) {
+                    let st = g.script.stmts.last_mut().unwrap();
+                    st.swallow_probe = Some("cbn".to_string());
+                    st.swallow_thrower = Some(tn.clone());
+                }
+            }
         }
         n_calls += 1;
         if n_calls % 30 == 0 {
